@@ -61,6 +61,14 @@ class BreakSignal(Exception):
     pass
 
 
+class BodySignal(Exception):
+    """a return / break / continue of the body of a `with` statement, on its way out through the frames of a
+    generator-based context manager (which must run its `finally` but must not take the signal for its own)"""
+
+    def __init__(self, inner):
+        self.inner = inner
+
+
 class ContinueSignal(Exception):
     pass
 
@@ -152,6 +160,12 @@ class Executor:
         self.P = program
         self.summaries = {"skchange.utils.numba.soft_import.prange": _prange_summary}
         self.summaries.update(summaries or {})
+        # a summary registered under `module.name` also applies when the definition lives elsewhere and is imported there
+        for k, h in list(self.summaries.items()):
+            if isinstance(k, str) and not k.startswith("abstract:"):
+                f = program.functions.get(k)
+                if f is not None and f.qualname != k:
+                    self.summaries.setdefault(f.qualname, h)
         self.max_depth = max_depth
         self.max_paths = max_paths
         self.unroll_limit = unroll_limit
@@ -473,6 +487,43 @@ class Executor:
             self.call_function(init, list(args), dict(kwargs), self_obj=obj, node=node)
         self.emit("new", node, obj=obj)
         return obj
+
+    # -------------------------------------------------------------- records
+    def _record_fields(self, cls: ClassInfo):
+        """[(field name, default expr | None)] for a typing.NamedTuple class (a tuple with named positions), else None"""
+        bases = [b if isinstance(b, str) else getattr(b, "qualname", "") for b in cls.bases]
+        if not any(str(b).endswith("NamedTuple") for b in bases):
+            return None
+        out = []
+        for st in cls.node.body:
+            if isinstance(st, ast.AnnAssign) and isinstance(st.target, ast.Name):
+                out.append((st.target.id, st.value))
+        return out
+
+    def _new_record(self, cls, fields, args, kwargs, node, frame):
+        """a NamedTuple instance is a tuple: positional unpacking / indexing work as for any tuple, the field names are
+        aliases of the positions"""
+        if len(args) > len(fields) or any(k not in {n for n, _ in fields} for k in kwargs):
+            raise Undecided(f"arguments of record {cls.name} do not match its fields", node)
+        items = []
+        for k, (name, dflt) in enumerate(fields):
+            if k < len(args):
+                items.append(args[k])
+            elif name in kwargs:
+                items.append(kwargs[name])
+            elif dflt is not None:
+                f2 = Frame(None, cls.module, {})
+                self.frames.append(f2)
+                try:
+                    items.append(self.ev(dflt, f2))
+                finally:
+                    self.frames.pop()
+            else:
+                raise Undecided(f"field {name} of record {cls.name} not given", node)
+        t = TupleV(items)
+        t.names = [n for n, _ in fields]
+        t.record = cls
+        return t
 
     # ----------------------------------------------------------- statements
     def exec_block(self, stmts, frame):
@@ -806,7 +857,7 @@ class Executor:
                     self._run_handler(taken, frame, "|".join(sorted(self._handler_names(taken) or {"Exception"})))
                 else:
                     self.exec_block(st.orelse, frame)
-        except (ReturnSignal, RaiseSignal, BreakSignal, ContinueSignal):
+        except (ReturnSignal, RaiseSignal, BreakSignal, ContinueSignal, BodySignal):
             final()
             raise
         final()
@@ -816,14 +867,72 @@ class Executor:
         locks, ...) do not change values: the context expression is evaluated (its calls are recorded like any other),
         the optional target is bound to an opaque handle, and the body runs in the same frame.  A context manager that
         is an object of the analysed code is not modelled."""
-        for it in st.items:
+        self._with_items(st, frame, 0)
+
+    def _contextmanager_call(self, e, frame):
+        """(FuncInfo, args, kwargs, self_obj) if `e` calls a generator function of the analysed code decorated with
+        contextlib.contextmanager, else None"""
+        if not isinstance(e, ast.Call):
+            return None
+        try:
+            fv = self.ev(e.func, frame)
+        except Undecided:
+            return None
+        if not isinstance(fv, FuncV) or not any(d.split(".")[-1] == "contextmanager" for d in fv.func.decorators):
+            return None
+        if not any(isinstance(n, (ast.Yield, ast.YieldFrom)) for n in ast.walk(fv.func.node)):
+            return None
+        args = [self.ev(a, frame) for a in e.args]
+        kwargs = {k.arg: self.ev(k.value, frame) for k in e.keywords if k.arg is not None}
+        return fv.func, args, kwargs, fv.self_obj
+
+    def _with_items(self, st, frame, k):
+        if k == len(st.items):
+            return self.exec_block(st.body, frame)
+        it = st.items[k]
+        gen = self._contextmanager_call(it.context_expr, frame)
+        if gen is None:
             v = self.ev(it.context_expr, frame)
             if isinstance(v, ObjV) and not v.abstract:
                 raise Undecided("with statement over an object of the analysed code", st)
             self.emit("with_enter", st, ctx=v)
             if it.optional_vars is not None:
                 self.assign(it.optional_vars, v if isinstance(v, (OpaqueV, Num)) else OpaqueV(f"ctx({valkey(v)})"), frame, st)
-        self.exec_block(st.body, frame)
+            return self._with_items(st, frame, k + 1)
+        # a @contextmanager generator of the analysed code: its body runs up to the yield, then the with-body, then the
+        # rest of the generator (its finally included) - the with-body is executed from inside the yield expression
+        func, args, kwargs, so = gen
+        state = {"ran": False}
+
+        def hook(value):
+            if state["ran"]:
+                raise Undecided("a context manager yields twice", st)
+            state["ran"] = True
+            if it.optional_vars is not None:
+                self.assign(it.optional_vars, value, frame, st)
+            try:
+                self._with_items(st, frame, k + 1)
+            except (ReturnSignal, BreakSignal, ContinueSignal) as sig:
+                raise BodySignal(sig)
+
+        hooks = self.__dict__.setdefault("yield_hooks", [])
+        hooks.append((func, hook))
+        try:
+            self.call_function(func, args, kwargs, so, st)
+        except BodySignal as b:
+            raise b.inner
+        finally:
+            hooks.pop()
+        if not state["ran"]:
+            raise Undecided("a context manager returns without yielding", st)
+
+    def ex_Yield(self, e, frame):
+        hooks = self.__dict__.get("yield_hooks") or []
+        if not hooks or frame.func is not hooks[-1][0]:
+            raise Undecided("expression Yield not supported", e)
+        v = self.ev(e.value, frame) if e.value is not None else NONE
+        hooks[-1][1](v)
+        return NONE
 
     def st_Delete(self, st, frame):
         for t in st.targets:
@@ -846,7 +955,7 @@ class Executor:
             for n in ast.walk(frame.func.node):
                 if isinstance(n, (ast.For, ast.While)):
                     k += 1
-                    if n is st:
+                    if n is st or n is getattr(st, "_orig", None):
                         break
         return f"{fn}#loop{k}"
 
@@ -872,9 +981,79 @@ class Executor:
         ctx.info["iter"] = it
         self.generic_iteration(st, frame, ctx, lambda: self.assign(st.target, elem, frame, st))
 
+    def _canon_while(self, st, frame):
+        """Two spellings of loops are reduced to the canonical ones before they are interpreted:
+        `while True: if T: break; REST`  ->  `while not T: REST`;
+        `while i < B: BODY; i += c` (counter i not otherwise assigned, no break / continue of this loop in BODY, B not
+        assigned in BODY, i not read after the loop)  ->  `for i in range(i, B, c): BODY`."""
+        cache = self.__dict__.setdefault("_while_canon", {})
+        if id(st) in cache:
+            return cache[id(st)]
+        out = st
+        if isinstance(st.test, ast.Constant) and st.test.value is True and st.body and isinstance(st.body[0], ast.If) and not st.body[0].orelse and len(st.body[0].body) == 1 and isinstance(st.body[0].body[0], ast.Break) and len(st.body) > 1:
+            t = st.body[0].test
+            neg = t.operand if isinstance(t, ast.UnaryOp) and isinstance(t.op, ast.Not) else ast.UnaryOp(op=ast.Not(), operand=t)
+            out = ast.While(test=neg, body=st.body[1:], orelse=[])
+            ast.copy_location(out, st)
+            ast.fix_missing_locations(out)
+            out._orig = st
+        w = out
+
+        def own_jumps(stmts):
+            for x in stmts:
+                if isinstance(x, (ast.Break, ast.Continue)):
+                    return True
+                if isinstance(x, (ast.For, ast.While, ast.FunctionDef, ast.AsyncFunctionDef, ast.ClassDef)):
+                    continue
+                for f in ("body", "orelse", "finalbody"):
+                    if own_jumps(getattr(x, f, []) or []):
+                        return True
+                for h in getattr(x, "handlers", []) or []:
+                    if own_jumps(h.body):
+                        return True
+            return False
+
+        t = w.test
+        if isinstance(t, ast.Compare) and len(t.ops) == 1 and isinstance(t.ops[0], (ast.Lt, ast.LtE)) and isinstance(t.left, ast.Name) and len(w.body) >= 2:
+            i = t.left.id
+            # the increment: a top-level `i += c` of the body; the counter is not read after it inside the body (so it
+            # may as well be the last statement) and no break / continue of this loop comes before it
+            incs = [k for k, x in enumerate(w.body) if isinstance(x, ast.AugAssign) and isinstance(x.target, ast.Name) and x.target.id == i]
+            last = w.body[incs[0]] if len(incs) == 1 else None
+            if last is not None and isinstance(last.op, ast.Add) and isinstance(last.value, ast.Constant) and isinstance(last.value.value, int) and last.value.value >= 1:
+                k_inc = incs[0]
+                body = w.body[:k_inc] + w.body[k_inc + 1:]
+                names, mutated = self.assigned_names(body)
+                bound_names = {n.id for n in ast.walk(t.comparators[0]) if isinstance(n, ast.Name)}
+                read_later_in_body = any(isinstance(n, ast.Name) and n.id == i and isinstance(n.ctx, ast.Load) for x in w.body[k_inc + 1:] for n in ast.walk(x))
+                jumps_before = own_jumps(w.body[:k_inc])
+                # after the loop the counter differs (B vs. the last element): it must not be read before it is re-assigned
+                read_after = False
+                fn = frame.func.node if frame.func is not None else None
+                end = getattr(st, "end_lineno", None)
+                if fn is not None and end is not None:
+                    later = sorted((n for n in ast.walk(fn) if isinstance(n, ast.Name) and n.id == i and getattr(n, "lineno", 0) > end), key=lambda n: (n.lineno, n.col_offset))
+                    if later:
+                        first_line = later[0].lineno
+                        on_line = [n for n in later if n.lineno == first_line]
+                        read_after = any(isinstance(n.ctx, ast.Load) for n in on_line) or not any(isinstance(n.ctx, ast.Store) for n in on_line)
+                if i not in names and not (bound_names & (names | mutated)) and not jumps_before and not read_later_in_body and not read_after:
+                    hi = t.comparators[0] if isinstance(t.ops[0], ast.Lt) else ast.BinOp(left=t.comparators[0], op=ast.Add(), right=ast.Constant(value=1))
+                    rng = ast.Call(func=ast.Name(id="range", ctx=ast.Load()), args=[ast.Name(id=i, ctx=ast.Load()), hi] + ([ast.Constant(value=last.value.value)] if last.value.value != 1 else []), keywords=[])
+                    out = ast.For(target=ast.Name(id=i, ctx=ast.Store()), iter=rng, body=body, orelse=[])
+                    ast.copy_location(out, st)
+                    ast.fix_missing_locations(out)
+                    out._orig = st
+        cache[id(st)] = out
+        return out
+
     def st_While(self, st, frame):
         if st.orelse:
             raise Undecided("while-else", st)
+        canon = self._canon_while(st, frame)
+        if isinstance(canon, ast.For):
+            return self.st_For(canon, frame)
+        st = canon
         lid = self.loop_id(st, frame)
         ctx = LoopCtx(lid, "while", st, frame.func)
 
@@ -1624,6 +1803,8 @@ class Executor:
         return self.getattr(base, e.attr, e, frame)
 
     def getattr(self, base, attr, node, frame=None):
+        if isinstance(base, TupleV) and attr in (getattr(base, "names", None) or ()):
+            return base.items[base.names.index(attr)]
         if isinstance(base, ObjV):
             if attr in base.fields:
                 if base.abstract and attr == "min_size" and node is not None:
@@ -1819,6 +2000,9 @@ class Executor:
                 return self.call_function(fv.func, [so] + list(args), kwargs, None, node)
             return self.call_function(fv.func, args, kwargs, so, node)
         if isinstance(fv, ClassV):
+            rec = self._record_fields(fv.cls)
+            if rec is not None:
+                return self._new_record(fv.cls, rec, args, kwargs, node, frame)
             return self.new_object(fv.cls, args, kwargs, node)
         if isinstance(fv, ClosureV):
             return self.call_closure(fv, args, kwargs, node)
@@ -1868,6 +2052,31 @@ class Executor:
 
     def ex_SetComp(self, e, frame):
         return self.comprehension(e, frame, "set")
+
+    def ex_DictComp(self, e, frame):
+        """{k: v for t in it if c} over an iterable with known items (a dict's items / keys, a literal tuple or list, a
+        constant range) is built item by item, in order, like the dict display it abbreviates"""
+        if len(e.generators) != 1:
+            raise Undecided("nested dict comprehension", e)
+        g = e.generators[0]
+        it = self.ev(g.iter, frame)
+        items = self.concrete_items(it)
+        if items is None or len(items) > self.unroll_limit:
+            raise Undecided("dict comprehension over an iterable of unknown length", e)
+        inner = Frame(frame.func, frame.module, {}, parent=frame)
+        out = []
+        for x in items:
+            self.assign(g.target, x, inner, e)
+            keep = True
+            for cnd in g.ifs:
+                if not self.decide(self.truth(self.ev(cnd, inner), e), e):
+                    keep = False
+                    break
+            if keep:
+                k = self.ev(e.key, inner)
+                v = self.ev(e.value, inner)
+                out = [(kk, vv) for kk, vv in out if valkey(kk) != valkey(k)] + [(k, v)]
+        return DictV(out)
 
     def comprehension(self, e, frame, kind):
         if len(e.generators) != 1:
